@@ -936,4 +936,183 @@ def Allowed (F : Foreign) (h : Heap) : HOp → Prop
 instance (w : World) : Decidable (Valid w) := by unfold Valid; infer_instance
 instance (F : Foreign) (w : World) : Decidable (Sep F w) := by unfold Sep; infer_instance
 
+
+/-! ## several lasers in one memory
+
+A program holds more than one laser and may build them from the *same* arguments: the same Python list of layers,
+the same structured array, the same calibration dict, the same config object (two SRR configurations of one
+acquisition; a laser and the one loaded back from the file it was saved to).  Every laser must go on agreeing with
+its own dictionary, whatever is done to the others.  The level below puts any number of lasers on one `Heap` and
+adds the one kind of object the one-laser level had no identity for: the Python *list* an `SRRLaser` keeps its
+layers in.  As read from the code:
+
+* `SRRLaser.__init__`: `self.data = list(data)` — a NEW list object holding the entries of the argument (the
+  caller's list, or the stacked array handed over by the loader); `Laser.__init__`: `self.data = data`;
+* `SRRLaser.add` / `remove` / `rename`: `self.data[i] = …` — the entries of the laser's own list object are
+  assigned in place; `Laser.add` / `remove` / `rename`: `self.data = …` — the attribute is rebound;
+* everything else (dict, `Calibration`, config objects, memory cells) is as on the one-laser level: a method of
+  laser `i` is `hstep` on the world consisting of the common memory and laser `i`'s references.
+-/
+
+/-- what the attribute `data` of a laser is bound to: for `Laser` the structured array itself (a one-element list
+here, as in `Obj`); for `SRRLaser` a Python list object, by identity (its position in `MWorld.lists`) -/
+inductive DataRef
+  | own (ls : List Arr)
+  | list (k : Nat)
+  deriving Repr, DecidableEq
+
+/-- a laser object: references only -/
+structure MObj where
+  srr : Bool
+  data : DataRef
+  cal : Nat
+  cfg : Nat
+  deriving Repr, DecidableEq
+
+structure MWorld where
+  heap : Heap
+  /-- Python list objects holding layers: identity = position; nothing is freed -/
+  lists : List (List Arr)
+  lasers : List MObj
+  deriving Repr, DecidableEq
+
+def MWorld.listOf (m : MWorld) (k : Nat) : List Arr := (m.lists[k]?).getD []
+
+/-- the layers a `data` reference stands for now -/
+def DataRef.layers (m : MWorld) : DataRef → List Arr
+  | .own ls => ls
+  | .list k => m.listOf k
+
+/-- laser `o` of `m` as a one-laser world of the object level -/
+def MWorld.world (m : MWorld) (o : MObj) : World :=
+  { heap := m.heap, laser := { srr := o.srr, data := o.data.layers m, cal := o.cal, cfg := o.cfg } }
+
+/-- what laser `i` stores, as contents -/
+def mview (m : MWorld) (i : Nat) : Option State := (m.lasers[i]?).map (fun o => view (m.world o))
+
+/-- after a method of laser `i` (`o`) has run and left the one-laser world `w`: the memory is `w`'s; the laser's
+`calibration` / `config` attributes are what the method left; `Laser` has rebound `data`, `SRRLaser` has assigned
+the entries of its own list object -/
+def MWorld.put (m : MWorld) (i : Nat) (o : MObj) (w : World) : MWorld :=
+  match o.data with
+  | .own _ =>
+    { heap := w.heap, lists := m.lists,
+      lasers := m.lasers.set i { o with data := .own w.laser.data, cal := w.laser.cal, cfg := w.laser.cfg } }
+  | .list k =>
+    { heap := w.heap, lists := m.lists.set k w.laser.data,
+      lasers := m.lasers.set i { o with cal := w.laser.cal, cfg := w.laser.cfg } }
+
+/-- a newly built laser joins the others.  `SRRLaser.__init__` stores `list(data)`: a new list object with the
+entries of its argument; `Laser.__init__` binds the array it is given -/
+def MWorld.push (m : MWorld) (w : World) : MWorld :=
+  if w.laser.srr then
+    { heap := w.heap, lists := m.lists ++ [w.laser.data],
+      lasers := m.lasers ++ [{ srr := true, data := .list m.lists.length, cal := w.laser.cal, cfg := w.laser.cfg }] }
+  else
+    { heap := w.heap, lists := m.lists,
+      lasers := m.lasers ++ [{ srr := false, data := .own w.laser.data, cal := w.laser.cal, cfg := w.laser.cfg }] }
+
+/-- `Laser(data, calibration, config)` / `SRRLaser(data, calibration, config)` next to the lasers that exist;
+`data`: the caller's array (`.own [a]`), the caller's list object (`.list k`) or any other sequence of layers
+(`.own ls`, e.g. the loader's stacked array); `given`, `config`: identities of the caller's dict and config -/
+def mConstruct (m : MWorld) (srr : Bool) (data : DataRef) (given config : Option Nat) : Option MWorld :=
+  (hConstruct m.heap srr (data.layers m) given config).map m.push
+
+/-- `npz.load(npz.save(lasers[i]))`: a further laser; the saved one lives on -/
+def mLoad (m : MWorld) (i : Nat) : Option MWorld :=
+  match m.lasers[i]? with
+  | none => none
+  | some o => (hRoundTrip (m.world o)).map m.push
+
+/-- an edit of an object by whoever holds it (`setCal` … `writeCell`): memory only, no laser is named -/
+def Heap.edit (h : Heap) : HOp → Heap
+  | .setCal k c => { h with cals := h.cals.set k c }
+  | .setCfg k c => { h with cfgs := h.cfgs.set k { h.cfgOf k with scal := c } }
+  | .setOffsets k c =>
+    let o := h.allocOffs c
+    { o.2 with cfgs := o.2.cfgs.set k { o.2.cfgOf k with offs := some o.1 } }
+  | .writeOffsets o c => { h with offs := h.offs.set o c }
+  | .setDict k d => { h with dicts := h.dicts.set k d }
+  | .writeCell i c => { h with cells := h.cells.set i c }
+  | _ => h
+
+inductive MOp
+  /-- a method of laser `i` -/
+  | call (i : Nat) (op : HOp)
+  /-- the holder of a `Calibration`, dict, config, offsets array or array edits it -/
+  | edit (op : HOp)
+  /-- the holder of list object `k` assigns, appends or deletes entries -/
+  | setList (k : Nat) (l : List Arr)
+  | construct (srr : Bool) (data : DataRef) (given config : Option Nat)
+  | load (i : Nat)
+  deriving Repr, DecidableEq
+
+def mstep (m : MWorld) : MOp → Res MWorld
+  | .call i op =>
+    match m.lasers[i]? with
+    | none => .fail .index m
+    | some o => (hstep (m.world o) op).map (m.put i o)
+  | .edit op => .ok { m with heap := m.heap.edit op }
+  | .setList k l => .ok { m with lists := m.lists.set k l }
+  | .construct srr data given config =>
+    match mConstruct m srr data given config with
+    | some m' => .ok m'
+    | none => .fail .assertion m
+  | .load i =>
+    match mLoad m i with
+    | some m' => .ok m'
+    | none => .fail .index m
+
+/-- a history in which everything succeeds -/
+def mrun (m : MWorld) : List MOp → Option MWorld
+  | [] => some m
+  | op :: ops =>
+    match mstep m op with
+    | .ok m' => mrun m' ops
+    | .fail _ _ => none
+
+/-- two `data` references are not one list object -/
+def DataRef.apart : DataRef → DataRef → Prop
+  | .list k, .list k' => k ≠ k'
+  | _, _ => True
+
+instance (a b : DataRef) : Decidable (a.apart b) := by
+  cases a <;> cases b <;> simp only [DataRef.apart] <;> infer_instance
+
+def DataRef.below (n : Nat) : DataRef → Prop
+  | .list k => k < n
+  | .own _ => True
+
+instance (n : Nat) (a : DataRef) : Decidable (a.below n) := by
+  cases a <;> simp only [DataRef.below] <;> infer_instance
+
+/-- every laser's references point at existing objects, and no two lasers have their calibration dict or their
+list of layers in common -/
+def MValid (m : MWorld) : Prop :=
+  (∀ o ∈ m.lasers, Valid (m.world o)) ∧ (∀ o ∈ m.lasers, o.data.below m.lists.length) ∧
+  m.lasers.Pairwise (fun a b => a.cal ≠ b.cal ∧ a.data.apart b.data)
+
+instance (m : MWorld) : Decidable (MValid m) := by unfold MValid; infer_instance
+
+/-- no laser references one of the foreign objects `F`, nor keeps its layers in one of the foreign lists `L` -/
+def MSep (F : Foreign) (L : List Nat) (m : MWorld) : Prop :=
+  (∀ o ∈ m.lasers, Sep F (m.world o)) ∧ (∀ k ∈ L, k < m.lists.length) ∧
+  (∀ o ∈ m.lasers, ∀ k ∈ L, o.data ≠ .list k)
+
+instance (F : Foreign) (L : List Nat) (m : MWorld) : Decidable (MSep F L m) := by unfold MSep; infer_instance
+
+/-- the steps of a history over several lasers: methods of any of them (arguments as in `Allowed`), edits of the
+foreign objects by their holders, edits of the foreign lists -/
+def MAllowed (F : Foreign) (L : List Nat) (h : Heap) : MOp → Prop
+  | .call _ op => op.isCall = true ∧ Allowed F h op
+  | .edit op => op.isCall = false ∧ Allowed F h op
+  | .setList k _ => k ∈ L
+  | .construct .. => False
+  | .load _ => False
+
+/-- the history of laser `j` inside a history over several lasers: its own calls; everything else does nothing -/
+def projOp (h : Heap) (j : Nat) : MOp → Op
+  | .call i op => if i = j then absOp h op else .callerEdit
+  | _ => .callerEdit
+
 end Pew.LaserEdit
